@@ -130,8 +130,10 @@ func installJSONWriterHooks(ex *Exec, w *World, tbl *jTable) {
 			kind = "quoted-bool"
 		case `%d`:
 			kind = "int"
-		case `%f`, `%g`, `%v`:
+		case `%g`, `%v`:
 			kind = "float"
+		case `%f`:
+			kind = "float-six-decimals" // lossy: no reader gets the written number back
 		}
 		var src Value
 		if sl, ok := a[1].(*SliceVal); ok {
@@ -158,6 +160,20 @@ func installJSONWriterHooks(ex *Exec, w *World, tbl *jTable) {
 		t := regBytes("string", sv, TTrue, "stringBytes")
 		ex.store(st, p, BCat(cur, t), fn.Pos())
 		return nil, true
+	}
+	// strconv.FormatFloat(f, fmt, -1, 64): the shortest text that parses back to exactly f (documented guarantee)
+	externals["strconv.FormatFloat"] = func(ex *Exec, st *State, a []Value, x *ssa.Call) Value {
+		kind := "float-rounded"
+		if p, ok := a[2].(*Term).IntVal(); ok && p == -1 {
+			if bs, ok := a[3].(*Term).IntVal(); ok && bs == 64 {
+				kind = "float"
+			}
+		}
+		ex.objSeq++
+		t := Var(fmt.Sprintf("strconv.FormatFloat!%d", ex.objSeq), SStr)
+		ex.assume(Gt(App("slen", SInt, t), IntLit(0)))
+		tbl.strReg[t] = &jMember{Kind: kind, Src: a[0], Via: "strconv.FormatFloat"}
+		return t
 	}
 	record := func(st *State, name *Term, m jMember, pos string) {
 		strLeaves(name, TTrue, func(c *Term, s string, ok bool) {
@@ -757,7 +773,7 @@ func TestVerifReplay(t *testing.T) {
 	add := func(v any) { samples = append(samples, reflect.ValueOf(v)) }
 	add(iri("a")); add(Item(iri("a"))); add(emb("o")); add(ItemCollection{emb("o")}); add(ItemCollection{iri("a"), emb("o")}); add(Item(ItemCollection{iri("a"), iri("b")}))
 	add(NaturalLanguageValues{{Ref: NilLangRef, Value: Content("x")}}); add(NaturalLanguageValues{{Ref: "en", Value: Content("x")}, {Ref: "fr", Value: Content("y")}})
-	add(true); add(int64(-7)); add(uint(7)); add(float64(-1.5)); add(90 * time.Minute); add(-3 * time.Second); add(time.Date(2020, 1, 2, 3, 4, 5, 0, time.UTC))
+	add(true); add(int64(-7)); add(uint(7)); add(float64(-1.5)); add(float64(12.3456789)); add(float64(-0.00000012)); add(90 * time.Minute); add(-3 * time.Second); add(time.Date(2020, 1, 2, 3, 4, 5, 0, time.UTC))
 	add("text"); add(MimeType("text/x")); add(ActivityVocabularyType("Note")); add(LangRef("en")); add(&Endpoints{SharedInbox: iri("shared")}); add(PublicKey{ID: iri("key"), Owner: iri("owner"), PublicKeyPem: "PEM"})
 	add(Source{MediaType: "text/x", Content: NaturalLanguageValues{{Ref: NilLangRef, Value: Content("src")}}})
 	base := func() reflect.Value {
@@ -848,7 +864,7 @@ func init() { drivers["C01"] = checkC01 }
 
 var jsonTrusted = []string{
 	"assumed contract of github.com/valyala/fastjson: Get/Exists/GetStringBytes/GetInt64/GetFloat64/Bool/Type observe the member a correct parser would produce for the text the writer emitted; Get returns the first member of a name",
-	"assumed text codec pairs: Time.Format(RFC3339)/Time.UnmarshalText and xsd.Marshal/xsd.Unmarshal are inverse on whole seconds; fmt %d, %f, %t text is a JSON number/boolean that parses back to the value (float precision of %f NOT covered)",
+	"assumed text codec pairs: Time.Format(RFC3339)/Time.UnmarshalText and xsd.Marshal/xsd.Unmarshal are inverse on whole seconds; fmt %d / %t text and strconv.FormatFloat(f, _, -1, 64) text is a JSON number/boolean that parses back to exactly the value (a %f or fixed-precision float is classified lossy and accepted by no reader)",
 	"the package's string escaper stringBytes appends one JSON string that decodes to its argument (byte-level loop outside the subset; C06), as does encoding/json.Marshal of a string",
 	"induction hypothesis at nested positions: an item / item list / language values / Source / Endpoints / PublicKey member written by the matching leaf writer is read back as the written value by JSONLoadItem, JSONItemsFn, asIRI (absolute IRIs), JSONGetNaturalLanguageField, GetAPSource, JSONGetActorEndpoints, JSONGetPublicKey",
 	"IsNil by its contract (C20); C08 views; go/types + go/ssa (x/tools v0.29.0); SMT solvers' unsat answers",
